@@ -15,14 +15,14 @@ def Rung.ids (r : Rung) : List Nat := r.slots.filterMap (·.tid)
 def Bracket.HasId (b : Bracket) (t : Nat) : Prop := ∃ r ∈ b.rungs, t ∈ r.ids
 
 /-- the rung `next` was built by `get_top_list` from the completed rung `prev`: slot by slot
-it holds the id of the top list; a slot created with id `None` may later have received a new
-trial, which then occurs in none of the rungs `lower` below. -/
+it holds the id of the top list; a slot created with id `None` may later have received the
+result of a new trial, which then occurs in none of the rungs `lower` below. -/
 def TopRel (m : Mode) (lower : List Rung) (prev next : Rung) : Prop :=
   ∃ es, entriesOf prev.slots = some es ∧
     (topList es next.slots.length m).length = next.slots.length ∧
     ∀ (p : Nat) (o : Option Nat) (s : Slot),
       (topList es next.slots.length m)[p]? = some o → next.slots[p]? = some s →
-      s.tid = o ∨ (o = none ∧ ∀ t, s.tid = some t → ∀ r ∈ lower, t ∉ r.ids)
+      s.tid = o ∨ (o = none ∧ ∀ t, s.tid = some t → s.metric.isSome = true ∧ ∀ r ∈ lower, t ∉ r.ids)
 
 /-- the bracket has a slot which `next_free_slot` can hand out -/
 def Bracket.HasFree (b : Bracket) : Prop :=
@@ -41,6 +41,7 @@ structure BWF (spec : List (Nat × Nat)) (b : Bracket) : Prop where
   top : ∀ k prev next, b.rungs[k]? = some prev → b.rungs[k + 1]? = some next →
             TopRel b.mode (b.rungs.take (k + 1)) prev next
   nodup : ∀ r ∈ b.rungs, r.ids.Nodup
+  base : ∀ r, b.rungs[0]? = some r → ∀ x ∈ r.slots, x.tid.isSome = true → x.metric.isSome = true
 
 /-! ### `assert_check_rungs` -/
 
@@ -126,7 +127,7 @@ theorem mkBracket_wf (mode : Mode) (spec : List (Nat × Nat)) (h : checkRungs sp
       rw [freeRung_ids] at ht; cases ht
     case hcomp => simp [Bracket.isComplete, Bracket.numRungs]
     case hwf =>
-      refine ⟨rfl, h, ?_, ?_, ?_, ?_, ?_, ?_, ?_⟩
+      refine ⟨rfl, h, ?_, ?_, ?_, ?_, ?_, ?_, ?_, ?_⟩
       · simp [Bracket.shape, freeRung]
       · simp
       · intro k r hk; simp at hk
@@ -148,6 +149,11 @@ theorem mkBracket_wf (mode : Mode) (spec : List (Nat × Nat)) (h : checkRungs sp
       · intro r hr
         simp only [List.mem_singleton] at hr; subst hr
         rw [freeRung_ids]; exact List.nodup_nil
+      · intro r hr x hx hxt
+        simp only [List.getElem?_cons_zero, Option.some.injEq] at hr
+        subst hr
+        simp only [freeRung, List.mem_replicate] at hx
+        rw [hx.2] at hxt; cases hxt
 
 /-! ### completeness -/
 
@@ -212,7 +218,7 @@ theorem nextFreeSlot_of_not_hasFree {spec b} (hw : BWF spec b) (hf : ¬ b.HasFre
 theorem bump_wf {spec b} (hw : BWF spec b) (hf : b.HasFree) :
     BWF spec { b with firstFree := b.firstFree + 1 } := by
   obtain ⟨rg, hrg, hlt⟩ := hf
-  refine ⟨hw.kind, hw.specOk, hw.shape, hw.len, hw.done, ?_, hw.open_, hw.top, hw.nodup⟩
+  refine ⟨hw.kind, hw.specOk, hw.shape, hw.len, hw.done, ?_, hw.open_, hw.top, hw.nodup, hw.base⟩
   intro r hr
   have : r = rg := by
     have h1 : b.rungs[b.current]? = some r := hr
